@@ -87,6 +87,11 @@ def gen_cases(ctx: Ctx):
             static_mesh=sm, lattice=bool(k % 2))
     for k, it in enumerate(["lsq_poly", "spline", "pchip"] if ctx.thorough() else ["lsq_poly"]):
         add(interp=it, order=3, nv=7, tgrid=(0, 100, 4), system=None, keys=MIXED[:9], law="power", gamma_acoustic="zero")
+    # 3e. "every valid configuration": settings files that leave out what the packaged defaults supply — the interpolation order, the
+    #     whole mode_gamma block, the whole elast.settings block (schema-valid: only qha.input / elast.input are required)
+    omits = ["order", "mode_gamma", "elast_settings"]
+    for k, om in enumerate(omits if ctx.thorough() else [omits[ctx.seed % 3], omits[(ctx.seed + 1) % 3]]):
+        add(interp=["spline", "krogh", "lsq_poly"][k % 3], order=3, nv=7, tgrid=(0, 100, 4), system=None, keys=MIXED[:9], law="power", omit=om)
     # 4. random mixtures
     n_rand = 250 if ctx.thorough() else 6
     for _ in range(n_rand):
@@ -112,6 +117,13 @@ def build(case, seed):
     ds = synth.make_dataset(rng, nv=case["nv"], nq=case.get("nq", 2), na=case.get("na", 2), system=case.get("system"),
                             keys=case.get("keys"), lattice=case.get("lattice", False), law=case.get("law", "power"),
                             settings=settings, static_mesh=case.get("static_mesh", "same"))
+    om = case.get("omit")
+    if om == "order":
+        del ds.settings["elast"]["settings"]["mode_gamma"]["order"]
+    elif om == "mode_gamma":
+        del ds.settings["elast"]["settings"]["mode_gamma"]
+    elif om == "elast_settings":
+        del ds.settings["elast"]["settings"]
     if case.get("gamma_acoustic") == "zero":
         ds.freqs[:, 0, :3] = 0.0
         ds.freqs[0, 0, 1] = -0.1234       # one small negative residue next to exact zeros, as DFPT output mixes them
